@@ -1,8 +1,165 @@
-(* C17 -- property theorems only. *)
+(* C17 -- property theorems only.  Each is closed by [exact] of a lemma proved in
+   Proofs/C17.v; Print Assumptions beneath each. *)
 From Coq Require Import List NArith ZArith Bool.
 Import ListNotations.
-Require Import Verif.Lib.Wire Verif.Gen.Facts_C17 Verif.Model.C17 Verif.Proofs.C17.
+Require Import Verif.Lib.Wire Verif.Lib.Text Verif.Lib.Utf8 Verif.Lib.Percent
+               Verif.Gen.Facts_C17 Verif.Model.C17 Verif.Proofs.C17.
+Open Scope N_scope.
 
+(* extra path elements: split the produced suffix on '/', percent-decode, UTF-8 decode:
+   exactly the supplied elements, for arbitrary Unicode / bytes / ints *)
+Theorem C17_elements_roundtrip : forall els s,
+  els <> [] -> join_elements els = Ok s ->
+  exists ts, spec_elements els = Some ts /\ decode_segments s = Some ts.
+Proof. exact elements_roundtrip. Qed.
+Print Assumptions C17_elements_roundtrip.
+
+(* query pairs: in order, repeated keys kept, sequence values expanded, None -> '' *)
+Theorem C17_query_roundtrip : forall l s ps,
+  Forall wf_pair l -> urlencode l = Ok s -> spec_pairs l = Some ps ->
+  parse_qsl s = Some ps /\ ~ In 35 s.
+Proof. exact query_roundtrip. Qed.
+Print Assumptions C17_query_roundtrip.
+
+Theorem C17_query_string_roundtrip : forall t s,
+  forallb valid_scalar t = true -> url_quote query_str_safe (PStr t) = Ok s ->
+  unquote_text s = Some t /\ ~ In 35 s.
+Proof. exact query_string_roundtrip. Qed.
+Print Assumptions C17_query_string_roundtrip.
+
+Theorem C17_anchor_roundtrip : forall v f a,
+  wf_val v -> fragment (Some v) = Ok f -> spec_anchor (Some v) = Some a ->
+  (a = [] /\ f = []) \/ (exists q, f = 35 :: q /\ ~ In 35 q /\ unquote_text q = Some a).
+Proof. exact anchor_roundtrip. Qed.
+Print Assumptions C17_anchor_roundtrip.
+
+(* the *_path variants equal the *_url variants with scheme://authority removed *)
+Theorem C17_route_path_is_url_minus_authority : forall c e rs n els o kw u,
+  o_app_url o = None -> route_url c e rs n els o kw = Ok u ->
+  exists p, route_path c e rs n els o kw = Ok p /\ u = host_part e o ++ p.
+Proof. exact route_path_is_url_minus_authority. Qed.
+Print Assumptions C17_route_path_is_url_minus_authority.
+
+Theorem C17_resource_path_is_url_minus_authority : forall c e names els o u,
+  o_app_url o = None -> resource_url c e names els o = Ok u ->
+  exists p, resource_path c e names els o = Ok p /\ u = host_part e o ++ p.
+Proof. exact resource_path_is_url_minus_authority. Qed.
+Print Assumptions C17_resource_path_is_url_minus_authority.
+
+Theorem C17_static_path_is_url_minus_authority : forall e rs regs path o kw u,
+  o_app_url o = None -> static_url e rs regs path o kw = Ok u ->
+  exists p, static_path e rs regs path o kw = Ok p /\ u = host_part e o ++ p.
+Proof. exact static_path_is_url_minus_authority. Qed.
+Print Assumptions C17_static_path_is_url_minus_authority.
+
+Theorem C17_current_route_path_is_url_minus_authority : forall c e rs rname matched md gt els o kw u,
+  o_app_url o = None -> current_route_url c e rs rname matched md gt els o kw = Ok u ->
+  exists p, current_route_path c e rs rname matched md gt els o kw = Ok p /\ u = host_part e o ++ p.
+Proof. exact current_route_path_is_url_minus_authority. Qed.
+Print Assumptions C17_current_route_path_is_url_minus_authority.
+
+(* an explicit application URL takes precedence over scheme/host/port *)
+Theorem C17_app_url_precedence : forall c e rs n els o kw u a,
+  o_app_url o = Some a -> route_url c e rs n els o kw = Ok u -> exists rest, u = a ++ rest.
+Proof. exact app_url_precedence. Qed.
+Print Assumptions C17_app_url_precedence.
+
+Theorem C17_app_url_precedence_resource : forall c e names els o u a,
+  o_app_url o = Some a -> resource_url c e names els o = Ok u -> exists rest, u = a ++ rest.
+Proof. exact app_url_precedence_resource. Qed.
+Print Assumptions C17_app_url_precedence_resource.
+
+(* the lru_cache in front of _join_elements cannot change an answer *)
+Theorem C17_join_elements_cache_transparent : forall c els,
+  cache_sound c -> cache_plain c -> forallb plain els = true ->
+  join_elements_c c els = join_elements els.
+Proof. exact join_elements_cache_transparent. Qed.
+Print Assumptions C17_join_elements_cache_transparent.
+
+(* full strength (any element types) needs the cache key to be the stringified tuple ... *)
+Theorem C17_join_elements_cache_transparent_repaired : forall c els,
+  join_elements_key_stringified = true -> join_elements_c c els = join_elements els.
+Proof. exact join_elements_cache_transparent_repaired. Qed.
+Print Assumptions C17_join_elements_cache_transparent_repaired.
+
+(* ... keyed on the raw tuple it is refuted: after (1,) the tuple (1.0,) is answered "1" *)
+Theorem C17_join_elements_raw_key_refuted :
+  exists w els, join_elements_raw_key (warm_cache w) els <> join_elements els.
+Proof. exact join_elements_raw_key_refuted. Qed.
+Print Assumptions C17_join_elements_raw_key_refuted.
+
+(* route literals survive the '%%' doubling and '%' formatting unchanged *)
 Theorem C17_literal_format_identity : forall s, undouble_pct (double_pct s) = Some s.
 Proof. exact undouble_double. Qed.
 Print Assumptions C17_literal_format_identity.
+
+(* scheme / host / port overrides: the code computes exactly the declarative rule *)
+Theorem C17_overrides_honoured : forall e s h p, partial_host_url e s h p = spec_authority e s h p.
+Proof. exact overrides_honoured. Qed.
+Print Assumptions C17_overrides_honoured.
+
+(* default ports are elided, every other non-empty port is shown *)
+Theorem C17_port_elision : forall e s h p,
+  (default_port (eff_scheme e s) = Some (eff_port e s h p) \/ eff_port e s h p = [] ->
+   partial_host_url e s h p = eff_scheme e s ++ scheme_sep ++ before 58 (eff_hostport e h))
+  /\ (default_port (eff_scheme e s) <> Some (eff_port e s h p) -> eff_port e s h p <> [] ->
+      partial_host_url e s h p =
+      eff_scheme e s ++ scheme_sep ++ before 58 (eff_hostport e h) ++ port_sep ++ eff_port e s h p).
+Proof. exact port_elision. Qed.
+Print Assumptions C17_port_elision.
+
+Theorem C17_scheme_override_default_port : forall e s h d,
+  default_port s = Some d ->
+  partial_host_url e (Some s) h None = s ++ scheme_sep ++ before 58 (eff_hostport e h).
+Proof. exact scheme_override_default_port. Qed.
+Print Assumptions C17_scheme_override_default_port.
+
+(* url_charset, component by component: only RFC 3986 path characters (pchar, '/', %HH) ... *)
+Theorem C17_script_name_chars : forall e s, quoted_script_name e = Ok s -> Forall pc s.
+Proof. exact quoted_script_chars. Qed.
+Print Assumptions C17_script_name_chars.
+
+Theorem C17_generate_chars : forall p kw u, generate p kw = Ok u -> Forall pc u.
+Proof. exact generate_chars. Qed.
+Print Assumptions C17_generate_chars.
+
+Theorem C17_join_elements_chars : forall els s, join_elements els = Ok s -> Forall pc s.
+Proof. exact join_elements_chars. Qed.
+Print Assumptions C17_join_elements_chars.
+
+(* ... and only query characters in an encoded query *)
+Theorem C17_urlencode_chars : forall l s, Forall wf_pair l -> urlencode l = Ok s -> Forall qc s.
+Proof. exact urlencode_chars. Qed.
+Print Assumptions C17_urlencode_chars.
+
+(* the whole URL: the reference decoder separates path, query and fragment where they were put;
+   every character after the application URL is allowed in its component; query, anchor and
+   extra elements decode to the supplied values *)
+Theorem C17_route_url_decodes : forall c e rs n els o kw u,
+  wf_query (o_query o) -> wf_anchor (o_anchor o) ->
+  join_elements_c c els = join_elements els ->
+  route_url c e rs n els o kw = Ok u ->
+  exists app path sfx qt f,
+    parse_app e o = Ok app
+    /\ Forall pc (path ++ sfx) /\ Forall qc qt /\ Forall qc f
+    /\ (~ In 35 app -> ~ In 63 app -> cut_ref u = (app ++ path ++ sfx, qt, f))
+    /\ query_decodes (o_query o) qt
+    /\ (forall t, spec_anchor (o_anchor o) = Some t -> unquote_text f = Some t)
+    /\ (els <> [] -> exists s ts, (sfx = s \/ sfx = 47 :: s)
+                                  /\ spec_elements els = Some ts /\ decode_segments s = Some ts).
+Proof. exact route_url_decodes. Qed.
+Print Assumptions C17_route_url_decodes.
+
+Theorem C17_resource_url_decodes : forall c e names els o u,
+  wf_query (o_query o) -> wf_anchor (o_anchor o) ->
+  join_elements_c c els = join_elements els ->
+  resource_url c e names els o = Ok u ->
+  exists app vp sfx qt f,
+    parse_app e o = Ok app /\ virtual_path names = Ok vp
+    /\ Forall pc (vp ++ sfx) /\ Forall qc qt /\ Forall qc f
+    /\ (~ In 35 app -> ~ In 63 app -> cut_ref u = (app ++ vp ++ sfx, qt, f))
+    /\ query_decodes (o_query o) qt
+    /\ (forall t, spec_anchor (o_anchor o) = Some t -> unquote_text f = Some t)
+    /\ (els <> [] -> exists ts, spec_elements els = Some ts /\ decode_segments sfx = Some ts).
+Proof. exact resource_url_decodes. Qed.
+Print Assumptions C17_resource_url_decodes.
